@@ -1,5 +1,5 @@
 /-
-C07 — property theorems (statements only; helper lemmas live in `Proofs/C07.lean`).
+C07 — property theorems (statements only; helper lemmas live in `Proofs/C07*.lean`).
 All definitions are those of `Model/C07.lean`, which the driver runs.
 -/
 import Mahotas.Proofs.C07
